@@ -182,12 +182,14 @@ func (r *runner) run(ctx context.Context, isStream bool, input any, opts ...Opti
 
 	// load checkpoint from ctx/store or init graph
 	initialized := false
+	startStep := 0
 	var nextTasks []*task
 	if isSubGraph {
 		// in subgraph, try to load checkpoint from ctx
 		if cp := getCheckPointFromCtx(ctx); cp != nil {
 			// load checkpoint from ctx
 			initialized = true // don't init again
+			startStep = cp.Step
 
 			err = r.checkPointer.restoreCheckPoint(cp, isStream)
 			if err != nil {
@@ -221,6 +223,7 @@ func (r *runner) run(ctx context.Context, isStream bool, input any, opts ...Opti
 		if cp != nil {
 			// load checkpoint from store
 			initialized = true
+			startStep = cp.Step
 
 			err = r.checkPointer.restoreCheckPoint(cp, isStream)
 			if err != nil {
@@ -273,7 +276,7 @@ func (r *runner) run(ctx context.Context, isStream bool, input any, opts ...Opti
 		}
 		// the direct successors of START are subject to interrupt-before like any other node
 		if hit := getHitKey(nextTasks, r.interruptBeforeNodes); len(hit) > 0 {
-			return nil, r.handleInterrupt(ctx, hit, nil, nextTasks, cm.channels, isStream, isSubGraph, checkPointID)
+			return nil, r.handleInterrupt(ctx, hit, nil, nextTasks, cm.channels, isStream, isSubGraph, checkPointID, 0)
 		}
 	} else {
 		haveOnStart = true
@@ -281,7 +284,7 @@ func (r *runner) run(ctx context.Context, isStream bool, input any, opts ...Opti
 	}
 
 	// Main execution loop.
-	for step := 0; ; step++ {
+	for step := startStep; ; step++ {
 		// Check for context cancellation.
 		select {
 		case <-ctx.Done():
@@ -342,6 +345,7 @@ func (r *runner) run(ctx context.Context, isStream bool, input any, opts ...Opti
 				isSubGraph,
 				cm,
 				isStream,
+				step, // the interrupted tasks take this step again
 			)
 		}
 
@@ -388,6 +392,7 @@ func (r *runner) run(ctx context.Context, isStream bool, input any, opts ...Opti
 					isSubGraph,
 					cm,
 					isStream,
+					step+1,
 				)
 			}
 
@@ -403,7 +408,7 @@ func (r *runner) run(ctx context.Context, isStream bool, input any, opts ...Opti
 			interruptBeforeNodes = append(interruptBeforeNodes, getHitKey(newNextTasks, r.interruptBeforeNodes)...)
 
 			// simple interrupt
-			return nil, r.handleInterrupt(ctx, interruptBeforeNodes, interruptAfterNodes, append(nextTasks, newNextTasks...), cm.channels, isStream, isSubGraph, checkPointID)
+			return nil, r.handleInterrupt(ctx, interruptBeforeNodes, interruptAfterNodes, append(nextTasks, newNextTasks...), cm.channels, isStream, isSubGraph, checkPointID, step+1)
 		}
 	}
 }
@@ -452,11 +457,13 @@ func (r *runner) handleInterrupt(
 	isStream bool,
 	isSubGraph bool,
 	checkPointID *string,
+	step int,
 ) error {
 	cp := &checkpoint{
 		Channels:       channels,
 		Inputs:         make(map[string]any),
 		SkipPreHandler: map[string]bool{},
+		Step:           step,
 	}
 	// only a graph that generates its own state owns it: a nested graph without state of its own
 	// works on its parent's state object, which the parent's checkpoint carries
@@ -501,6 +508,7 @@ func (r *runner) handleInterruptWithSubGraphAndRerunNodes(
 	isSubGraph bool,
 	cm *channelManager,
 	isStream bool,
+	step int,
 ) error {
 	var rerunTasks, subgraphTasks, otherTasks []*task
 	skipPreHandler := map[string]bool{}
@@ -541,6 +549,7 @@ func (r *runner) handleInterruptWithSubGraphAndRerunNodes(
 		Inputs:         make(map[string]any),
 		SkipPreHandler: skipPreHandler,
 		SubGraphs:      make(map[string]*checkpoint),
+		Step:           step,
 	}
 	// only a graph that generates its own state owns it: a nested graph without state of its own
 	// works on its parent's state object, which the parent's checkpoint carries
